@@ -40,6 +40,9 @@ func genCase(t *rapid.T) Case {
 	if c.Pos == "password" {
 		c.Type = 'p'
 	}
+	if c.Pos != "startup" && c.Pos != "password" && rapid.IntRange(0, 5).Draw(t, "tls") == 0 {
+		c.TLS = true
+	}
 	switch rapid.IntRange(0, 3).Draw(t, "segs") {
 	case 0:
 		c.Segs = []int{L}
@@ -84,7 +87,17 @@ func TestBoundaries(t *testing.T) {
 			}
 		}
 	}
-	core.MarkExhaustive("bounds (limits x boundary sizes x 13 types x 4 session positions, + password/startup)")
+	// the same boundaries inside a TLS session (TLS record size 16384 is not a message limit)
+	for _, L := range []int{64, 1000, 4096, 16383, 16384, 20000} {
+		for _, sz := range []int{L - 1, L, L + 1, 16384, 16385, 2*L + 1} {
+			i++
+			if i%shards != shard {
+				continue
+			}
+			core.RunCase(t, "bounds", Case{LimitSetting: L, Size: sz, Type: 'Q', Pos: "between", TLS: true}, Run)
+		}
+	}
+	core.MarkExhaustive("bounds (limits x boundary sizes x 13 types x 4 session positions, + password/startup, + inside TLS)")
 }
 
 // TestNonPositive: settings 0, -1, -L mean the default of 16 MiB.
